@@ -111,6 +111,16 @@ def enumerate_cases(tier, seed):
     step = 400
     for lo in range(0, len(cfgs), step):
         yield ("refusal", {"cfgs": cfgs[lo : lo + step]})
+    # a component that can never be completed (its last token keeps an open descriptor): whatever the system does on a path
+    # that picks it (raise), it must never YIELD / RETURN a molecule that is not fully generated
+    for text, ext in [
+        ("CCS.|40%|N{[$][$]CC[$][$]}|gauss(40.0, 0)|[$]C(=O)[$].|400|", None),
+        ("N{[$][$]CC[$][$]}|gauss(40.0, 0)|[$]C(=O)[$].|60%|CCS.|300|", None),
+        ("CC[$].|50%|CCO.|200|", None),
+        ("CCO.|30%|{[][<]CC[>]; [>]N[<]}|gauss(40.0, 0)|.|70%|", 500.0),
+        ("CCO.|30%|CC{[$][$]CC([$])[$]; [$][H][$]}|gauss(60.0, 0)|.|70%|", 500.0),
+    ]:
+        yield ("open-component", {"text": text, "ext": ext})
     # masses fully specified, but one COMPONENT is not generable (no distribution / negative weight / open end): the
     # system must refuse on every random path, whichever component the pick lands on
     bad = ["{[][$]CC[$]; [$][H][]}", "OC{[>][<]CC[>][<]}CBr", "N{[$][$|-1|]CC[$][$]}|gauss(40, 0)|F"]
@@ -146,6 +156,61 @@ def member_sets(comps):
             raise HarnessError("component is not well posed")
         sets.append({member_form(R.plain_smiles_of_labelled(c)) for c in out})
     return sets
+
+
+def eval_open_component(res, data):
+    import gbigsmiles
+    from gbigsmiles.system import System
+
+    text, ext = data["text"], data["ext"]
+    res["nontrivial"] = ["open-component", text]
+    res["sample"] = {"system": text}
+
+    def complete(mg):
+        return bool(mg.fully_generated) and len(mg.bond_descriptors) == 0
+
+    def run_single(rng):
+        try:
+            mg = gbigsmiles.System(text, ext).generate(rng=rng)
+            return ("ok", [(mg.smiles, complete(mg))])
+        except HarnessError:
+            raise
+        except Exception as e:  # noqa
+            return ("exc", type(e).__name__)
+
+    def run_iter(rng):
+        old = System.generator.fget.__defaults__
+        System.generator.fget.__defaults__ = (rng,)
+        out = []
+        try:
+            for mg in gbigsmiles.System(text, ext).generator:
+                out.append((mg.smiles, complete(mg)))
+                if len(out) >= 3:
+                    break
+            return ("ok", out)
+        except HarnessError:
+            raise
+        except Exception as e:  # noqa
+            return ("ok", out) if out else ("exc", type(e).__name__)
+        finally:
+            System.generator.fget.__defaults__ = old
+
+    n = 0
+    kinds = set()
+    for which, run in (("generate()", run_single), ("iterating .generator", run_iter)):
+        for rng, obs in explore(run, max_exec=800):
+            n += 1
+            res["states"] += max(1, len(rng.points))
+            res["transitions"] += max(1, len(rng.points))
+            kinds.add(obs[0])
+            if obs[0] == "ok" and any(not c for _, c in obs[1]):
+                bad = next(smi for smi, c in obs[1] if not c)
+                viol(res, f"C13|incomplete-molecule-handed-out|{'single' if which == 'generate()' else 'iterate'}", f"System({text!r}, {ext}): {which} hands out {bad}, which still has an open bond descriptor (random path {rng.choices})", {"text": text, "ext": ext, "script": rng.choices})
+                break
+    res["traces"] = n
+    res["evals"] = n
+    res["outcomes"] = [f"open-component:{k}" for k in sorted(kinds)]
+    return res
 
 
 def eval_refusal_component(res, data):
@@ -397,6 +462,8 @@ def eval_case(kind, data):
 
     if kind == "refusal-component":
         return eval_refusal_component(res, data)
+    if kind == "open-component":
+        return eval_open_component(res, data)
     comps = [(c[0], c[1]) for c in data["comps"]]
     ext = data["ext"]
     text = sys_text(comps)
@@ -419,7 +486,7 @@ def eval_case(kind, data):
             out = []
             gen = sysobj.generator
             for mg in gen:
-                out.append((mg.smiles, heavy_mass(mg.smiles), bool(mg.fully_generated)))
+                out.append((mg.smiles, heavy_mass(mg.smiles), bool(mg.fully_generated) and len(mg.bond_descriptors) == 0))
                 if len(out) > 200:
                     return ("runaway", out)
             # the generator must be exhausted now
@@ -469,7 +536,7 @@ def eval_case(kind, data):
         try:
             sysobj = gbigsmiles.System(text, ext)
             mg = sysobj.generate(rng=rng)
-            return ("ok", mg.smiles, bool(mg.fully_generated))
+            return ("ok", mg.smiles, bool(mg.fully_generated) and len(mg.bond_descriptors) == 0)
         except HarnessError:
             raise
         except Exception as e:  # noqa
@@ -501,7 +568,7 @@ def eval_case(kind, data):
             out = []
             gen = obj.generator
             for mg in gen:
-                out.append((mg.smiles, heavy_mass(mg.smiles), bool(mg.fully_generated)))
+                out.append((mg.smiles, heavy_mass(mg.smiles), bool(mg.fully_generated) and len(mg.bond_descriptors) == 0))
                 if k is not None and len(out) >= k:
                     break
                 if len(out) > 300:
